@@ -95,6 +95,8 @@ NoAuto == [enabled |-> FALSE, depth |-> 2, notagonly |-> TRUE]
 (*   [kind |-> "tag", fmt, tag, at, elems, query, uri]   plain http gun against a 200 target    *)
 (*   [kind |-> "grpc", status]                   grpc gun, ammo tagged "g", target answers status*)
 (*   [kind |-> "grpcbad", what]                  grpc gun: unknown method / ill-typed payload   *)
+(*   [kind |-> "grpcfail", what]                 grpc gun: nobody listens (Unavailable) / the    *)
+(*                                               target never answers (DeadlineExceeded)         *)
 (*   [kind |-> "invalid"]                        http gun handed an ammo flagged invalid (one   *)
 (*                                               sample, __EMPTY__, proto 0; net not fixed)     *)
 (*   [kind |-> "httpscn", name, steps]           http scenario gun; steps = <<[name, out]>>     *)
@@ -118,6 +120,8 @@ Expected(c) ==
             <<Sample(Tags(c.tag, c.at, c.elems), 200, TRUE)>>
       [] c.kind = "grpc" ->
             <<Sample(<<"g">>, GrpcCode(c.status), TRUE)>>
+      [] c.kind = "grpcfail" ->                     \* statuses produced by the client itself
+            <<Sample(<<"g">>, GrpcCode(IF c.what = "refused" THEN 14 ELSE 4), TRUE)>>
       [] c.kind = "invalid" ->                      \* nothing is sent: no status, no tag of its own
             <<Sample(Tags("", NoAuto, <<>>), 0, TRUE)>>
       [] c.kind = "httpscn" ->
